@@ -80,8 +80,9 @@ def main():
     rc, out = sh(['/venv/bin/python', os.path.join('_seed', str(k), 'demo.py')], cwd=wt, timeout=600)
     res['demo_without_change_exit'] = rc
     # leave the shared generated tables as the real tree has them
-    for c in checks:
-        sh([os.path.join(VERIF, 'check'), c, '--tier', 'quick'], cwd=VERIF, timeout=3000)
+    if not os.environ.get('SEEDTEST_NO_RESTORE'):
+        for c in checks:
+            sh([os.path.join(VERIF, 'check'), c, '--tier', 'quick'], cwd=VERIF, timeout=3000)
     res['confirmed'] = bool(res.get('suite_ok') and res['demo_with_change_exit'] == 1 and res['demo_without_change_exit'] == 0)
     res['caught'] = {c: (v['exit'] == 1 and bool(v['violation_lines'])) for c, v in res['checks'].items()}
     print(json.dumps(res, indent=1))
